@@ -12,3 +12,6 @@ func raceJoinAll(x *Exec)   {}
 
 func Release(p unsafe.Pointer) {}
 func Acquire(p unsafe.Pointer) {}
+
+func WriteRange(p unsafe.Pointer, n int) {}
+func ReadRange(p unsafe.Pointer, n int)  {}
